@@ -28,7 +28,7 @@ func init() {
 			"arrival time stamp of a message = accumulated Driver.Sleep time of the Send call that carried its last byte (C04)",
 			"inter-arrival gaps are kept below 0x07FFFFFF ticks at the recording tempo and resolution (a delta must be representable in the file)",
 		},
-		Require: []string{"old_driver_recordings", "recordings_with_empty_deliveries", "overdubs_into_read_files", "recordings", "channel_messages_recorded", "non_channel_messages_sent", "realtime_sent", "syscommon_sent", "strict_validated", "read_back", "delta_checks", "file_level_recordings", "recordings_with_long_pause", "recordings_with_oversized_sysex", "long_sessions_beyond_2^32_ticks", "recordings_with_silence_beyond_the_delta_range", "long_takes_over_21845_messages"},
+		Require: []string{"old_driver_recordings", "recordings_with_empty_deliveries", "overdubs_into_read_files", "recordings", "channel_messages_recorded", "non_channel_messages_sent", "realtime_sent", "syscommon_sent", "strict_validated", "read_back", "delta_checks", "file_level_recordings", "recordings_with_long_pause", "recordings_with_oversized_sysex", "long_sessions_beyond_2^32_ticks", "recordings_with_silence_beyond_the_delta_range", "long_takes_over_21845_messages", "takes_longer_than_2^31_ms", "takes_longer_than_2^32_ms"},
 		Run:     runC13,
 	})
 }
@@ -571,6 +571,65 @@ func runC13(c *mon.Ctx) {
 			}
 		}
 		c.DistinctBytes([]byte(fmt.Sprint("longtake", i, n)))
+	})
+
+	// a take that lasts longer than the 32-bit millisecond clock of a listener (2^31 ms = 24.8 days; an installation
+	// that records for a month): every single silence is well below 2^31 ms, only their sum passes it - the time stamps
+	// the listener sees wrap around, the differences between them do not
+	c.Each("take-beyond-2^31-ms", c.N(40, 600), func(i int64, r *mon.Rand) {
+		res, bpm := uint16(r.Pick(24, 48, 96)), float64(r.Pick(30, 40, 60))
+		l := newL2()
+		var tr smf.Track
+		var stop func()
+		var err error
+		n := r.Range(5, 12)
+		in := map[string]any{"resolution": res, "bpm": bpm, "messages": n, "scenario": "one take with silences of 3*10^8 .. 10^9 ms between the messages: the session passes 2^31 ms (and for the longer ones 2^32 ms)"}
+		if c.Guard("panic:RecordFrom", in, func() { stop, err = tr.RecordFrom(l.in, smf.MetricTicks(res), bpm) }) || err != nil {
+			return
+		}
+		var want [][]byte
+		var atMs, gaps []int64
+		var now int64
+		for k := 0; k < n; k++ {
+			m := []byte{0x90 | byte(k&15), byte(60 + k), byte(1 + k)}
+			d := int64(r.Range(300_000_000, 1_000_000_000))
+			if k == 0 || r.P(1, 4) {
+				d = int64(r.Intn(2000))
+			}
+			now += d
+			l.drv.Sleep(time.Duration(d) * time.Millisecond)
+			l.out.Send(m)
+			want, atMs, gaps = append(want, m), append(atMs, now), append(gaps, d)
+		}
+		stop()
+		in["silences_ms"] = gaps
+		c.Count("recordings", 1)
+		c.Eval(1)
+		if now > 1<<31 {
+			c.Count("takes_longer_than_2^31_ms", 1)
+		}
+		if now > 1<<32 {
+			c.Count("takes_longer_than_2^32_ms", 1)
+		}
+		if len(tr) != n+1 {
+			c.Violation("content", fmt.Sprintf("take of %d ms: %d messages sent, %d events recorded after the tempo event", now, n, len(tr)-1), in, n, len(tr)-1)
+			return
+		}
+		var abs int64
+		for k := 0; k < n; k++ {
+			e := tr[k+1]
+			abs += int64(e.Delta)
+			c.Count("channel_messages_recorded", 1)
+			if !bytes.Equal(e.Message, want[k]) {
+				c.Violation("content", fmt.Sprintf("take of %d ms: recorded channel message %d is % X, the message that arrived was % X", now, k, []byte(e.Message), want[k]), in, mon.Hex(want[k]), mon.Hex(e.Message))
+				return
+			}
+			if x := c13ExpectedTicks(atMs[k], res, bpm); abs-x > int64(k)+1 || x-abs > int64(k)+1 {
+				c.Violation("delta", fmt.Sprintf("message %d arrived %d ms after the start of the take (%d ms after its predecessor) = tick %d, recorded at tick %d (delta %d)", k, atMs[k], gaps[k], x, abs, e.Delta), in, x, abs)
+				return
+			}
+		}
+		c.DistinctBytes([]byte(fmt.Sprint("take2^31", i, now)))
 	})
 
 	// SMF.RecordFrom / smf.RecordTo: their stop functions sleep one second each
